@@ -517,12 +517,46 @@ class SInt(object):
         raise PathAbort('bit_length')
 
     def __repr__(self):
+        if getattr(Ctx.cur, 'render_map', None) is not None:
+            return render_number(self)
         return '<sym>'
     __str__ = __repr__
 
     def __format__(self, spec):
+        if getattr(Ctx.cur, 'render_map', None) is not None and spec in ('', 'd', 'x', 'X', '#x', '#X', 'o'):
+            return render_number(self, spec[-1] if spec else 'd', alt=spec.startswith('#'))
         Ctx.cur.stats['sym_format'] = Ctx.cur.stats.get('sym_format', 0) + 1
         return '<sym>'
+
+
+RENDER_BASE = 3000017
+
+
+def render_number(x, conv='d', alt=False, plus=False):
+    """text of a symbolic integer while the engine is in render mode (Engine.render_map is a dict): the sign is decided by a
+    fork, the magnitude is printed as a reserved placeholder numeral P (decimal / hex as asked) and render_map[P] is the
+    symbolic magnitude - a lexer that maps the NUMBER token P back to render_map[P] reads the text as the number itself;
+    only digit-string <-> integer conversion is not modelled"""
+    rm = Ctx.cur.render_map
+    if isinstance(x, SBool):
+        x = SInt.of_bool(x)
+    if conv in ('i', 'u'):
+        conv = 'd'
+    neg = bool(x < 0)
+    v = -x if neg else x
+    fmt = '%' + ('#' if alt else '') + conv
+    if isinstance(v, _int):
+        text = fmt % v
+    else:
+        P = None
+        for p_, s_ in rm.items():
+            if s_.t.eq(v.t):
+                P = p_
+        if P is None:
+            P = RENDER_BASE + 13 * len(rm)
+            rm[P] = v
+        text = fmt % P
+    return ('-' if neg else ('+' if plus else '')) + text
 
 
 def mk(t, lo=None, hi=None):
